@@ -167,11 +167,14 @@ class DataflowAnalysisAttacher(Transformer):
         query_args = as_tuple(flatten(FindVariables().visit(i.parameters) for i in mem_calls))
         uses = self._symbols_from_expr(o.bounds)
         uses = OrderedSet(v for v in uses if not v in query_args)
+        bounds_uses = uses.copy()
         body, defines, uses = self._visit_body(o.body, live=live|{o.variable.clone()}, uses=uses, **kwargs)
         o._update(body=body)
         # Make sure the induction variable is not considered outside the loop
         uses.discard(o.variable)
         defines.discard(o.variable)
+        # The loop bounds are evaluated before the induction variable is assigned
+        uses |= bounds_uses
         return self.visit_Node(o, live_symbols=live, defines_symbols=defines, uses_symbols=uses, **kwargs)
 
     def visit_WhileLoop(self, o, **kwargs):
